@@ -241,14 +241,8 @@ class Flow:
                         out.add(("fresh",))
                         continue
                     for r in self.return_origins(t):
-                        out.add(self._subst(r, t, n, fi, recv_cls, _depth, _seen))
-                flat = set()
-                for o in out:
-                    if isinstance(o, set):
-                        flat |= o
-                    else:
-                        flat.add(o)
-                return flat
+                        out |= self._subst(r, t, n, fi, recv_cls, _depth, _seen)
+                return out
             if isinstance(f, ast.Attribute) and f.attr in FRESH_METHODS:
                 return {("fresh",)}
             if name and not name.startswith(self.repo.package) and not name.startswith(("?", "<")):
@@ -297,19 +291,17 @@ class Flow:
         if r[0] == "param":
             a = arg_for(r[1])
             if a is None:
-                return ("unknown", f"arg {r[1]}")
+                return {("unknown", f"arg {r[1]}")}
             return self.origins(fi, a, recv_cls, depth + 1, seen)
         if r[0] == "attr":
             a = arg_for(r[1])
             if a is None:
-                return ("unknown", f"arg {r[1]}")
+                return {("unknown", f"arg {r[1]}")}
             return {self._extend(b, r[2]) for b in self.origins(fi, a, recv_cls, depth + 1, seen)}
         if r[0] == "elem":
             inner = self._subst(r[1], target, call, fi, recv_cls, depth, seen)
-            if isinstance(inner, set):
-                return {("elem", x) for x in inner}
-            return ("elem", inner)
-        return r
+            return {("elem", x) for x in inner}
+        return {r}
 
     def return_origins(self, fi: FuncInfo) -> set:
         if fi.qualname in self._ret_cache:
